@@ -17,8 +17,9 @@ S0 = "old(self).value_stack@"
 B = "old(self).stack_base as int"
 P = ["C26", "C01"]
 
-R8_REF = (r'\n\s*let arr = val\.get_array\(self\);', '', 1)
-R8_MUT = (r'\n\s*let arr = unsafe \{ val\.get_array_mut\(self\) \};', '', 1)
+# (the name of the operand variable is free: a rename of `val` must not lose the anchor)
+R8_REF = (r'\n\s*let arr = \w+\.get_array\(self\);', '', 1)
+R8_MUT = (r'\n\s*let arr = unsafe \{ \w+\.get_array_mut\(self\) \};', '', 1)
 
 ARMS = {
     'GetIndex': dict(props=P, extra_params="arr: &ArrayObject", rewrites=[R8_REF, (r'self\.push\(field\)', 'self.push_val(field)', 1)], contract=(
